@@ -31,6 +31,25 @@ get_svh (filters/statistical_filters.py), alpha at its default, max_order in {2,
 * sampled: random weighted hypergraphs, 3..10 nodes, 1..8 hyperedges, weights up to 20 (heavy weights are needed to
   get any hyperedge validated; in the exhaustive scope nothing can be), int / string labels, also unweighted.
 * one mp=True run (thorough only, in the parent process) compared clause by clause like the others.
+* large scale (both tiers, mp=False and mp=True): hypergraphs in which the *integer* product of the K_i of a
+  hyperedge reaches 2**63 .. 2**66 (and N**n >= 2**63), so that the success probability prod K_i/N only comes out
+  right when it is formed in floating point / exact arithmetic:
+  - fixed: cyclic designs (all windows of n consecutive nodes on a ring of m) of size 8 / 10 / 12 whose nodes occur
+    in >= 250 / 100 / 50 occurrences, each with light size-2 and size-3 hyperedges next to them; one size-4
+    hypergraph with a hyperedge of weight 60 000 and light hyperedges sharing 2..3 of its nodes.
+  - "dense" (seeded; quick 30, thorough 400): 5..14 distinct random hyperedges of one size n in 8..12 on n+1..2n
+    nodes (int / non-contiguous int / string labels), weights grown at random until the product of the K_i of
+    some (or of every) hyperedge is >= 2**b, b in {63, 64, 66}; with light hyperedges of sizes 2..3 and 4..7 beside
+    them in part of the cases; max_order in {n, 12, 20} (and, rarely, n-1, which excludes the large size).
+  - "heavy" (seeded; quick one each of size 4, 5, 6, 7, thorough 40): one hyperedge of size n in 4..7 and weight
+    W >= 2**(63/n) (55 109 for n = 4), plus 2..5 hyperedges of weight 1..30 sharing n-1 or n-2 of its nodes (so that
+    the p-values are not all 0 or 1), plus light size-2/3 hyperedges.
+  - mp=True (parent process): the size-10 cyclic design, 2 dense and 1 heavy case in quick; 30 dense and 4 heavy
+    in thorough.
+  The oracle for these is the same exact rational tail, evaluated in integers (numerator over the common
+  denominator b**N, summing the shorter of the two tails) and cross-checked against the Fraction version on 300
+  small arguments at the start of every run; p-values are compared at 1e-12 + 1e-9 * expected (with N up to
+  ~60 000 the rounding of prod K_i/N in double precision alone moves the tail by ~1e-12).
 
 Oracle
 ------
@@ -39,7 +58,8 @@ dict iff for every attribute of the dict the item has the attribute and its valu
 lacking the attribute does not match).  Survivors are computed from the statement; the container is observed through
 get_nodes / get_edges / get_weight / get_*_metadata only.
 svh: N and K_i are counted from the weighted hyperedge list; the p-value is the exact rational binomial tail
-sum_{k>=w} C(N,k) p^k (1-p)^(N-k) with p = prod K_i / N^n (fractions.Fraction), compared at 1e-12.  The validated set
+sum_{k>=w} C(N,k) p^k (1-p)^(N-k) with p = prod K_i / N^n (fractions.Fraction), compared at 1e-12 (large-scale
+cases: 1e-12 + 1e-9 relative, see above).  The validated set
 is recomputed from the *reported* p-values with the step-up rule the module implements and documents (largest i with
 p_(i) < i * alpha / C(n_a, n), n_a = number of distinct nodes in the size-n hyperedges, alpha = 0.01); monotonicity
 is checked on its own.
@@ -459,8 +479,46 @@ def binom_tail(w, N, p):
     return sum(math.comb(N, k) * p ** k * q ** (N - k) for k in range(w, N + 1))
 
 
-def svh_oracle(edges, max_order):
-    """{size: {hyperedge: p-value}} for the sizes 2..max_order that occur."""
+def binom_tail_int(w, N, p):
+    """P[Binomial(N, p) >= w] for a Fraction p, exact: (numerator, denominator) with denominator = p.denominator**N.
+    Terms T_k = C(N,k) a^k c^(N-k) (p = a/b, c = b-a) are obtained from their neighbours by exact integer
+    division; the shorter of the two tails is summed (cost ~ min(w, N-w+1) operations on N*log2(b)-bit integers)."""
+    a, b = p.numerator, p.denominator
+    c = b - a
+    if w <= 0 or (c == 0 and w <= N):
+        return 1, 1
+    if w > N:
+        return 0, 1
+    den = b ** N
+    s = 0
+    if w <= N - w + 1:  # 1 - sum_{k<w}
+        t = c ** N
+        for k in range(w):
+            s += t
+            t = t * (N - k) * a // ((k + 1) * c)  # exact: C(N,k)(N-k) = C(N,k+1)(k+1), and N-k >= 1 factors c remain
+        return den - s, den
+    t = a ** N
+    for k in range(N, w - 1, -1):  # sum_{k>=w}, from the top
+        s += t
+        t = t * k * c // ((N - k + 1) * a)  # exact: C(N,k) k = C(N,k-1)(N-k+1)
+    return s, den
+
+
+def selfcheck_tail(seed):
+    """The integer evaluation agrees with the Fraction one on small arguments (exact equality)."""
+    rng = random.Random(seed)
+    for _ in range(300):
+        N = rng.randint(1, 30)
+        w = rng.randint(0, N + 1)
+        d = rng.randint(1, 40)
+        p = Fraction(rng.randint(1, d), d)
+        if Fraction(*binom_tail_int(w, N, p)) != binom_tail(max(w, 0), N, p):
+            raise AssertionError(f"binom_tail_int({w}, {N}, {p}) disagrees with binom_tail")
+
+
+def svh_oracle(edges, max_order, large=False, stats=None):
+    """{size: {hyperedge: p-value}} for the sizes 2..max_order that occur.  stats (optional dict) receives the number
+    of hyperedges whose integer product of the K_i is >= 2**63."""
     out = {}
     for n in sorted({len(e) for e in edges}):
         if not 2 <= n <= max_order:
@@ -474,9 +532,17 @@ def svh_oracle(edges, max_order):
         out[n] = {}
         for e, w in sized.items():
             p = Fraction(1)
+            prod = 1
             for v in e:
                 p *= Fraction(K[v], N)
-            out[n][e] = float(binom_tail(w, N, p))
+                prod *= K[v]
+            if stats is not None and prod >= 2 ** 63:
+                stats["big"] = stats.get("big", 0) + 1
+            if large:
+                num, den = binom_tail_int(w, N, p)
+                out[n][e] = num / den  # int / int: correctly rounded whatever the operands' size
+            else:
+                out[n][e] = float(binom_tail(w, N, p))
     return out
 
 
@@ -490,9 +556,15 @@ def check_svh(rec, spec, max_order, mp=False, register=True):
         edges[frozenset(e)] = edges.get(frozenset(e), 0) + (w if spec["weighted"] else 1)
     if not spec["weighted"]:
         edges = {e: 1 for e in edges}
-    oracle = svh_oracle(edges, max_order)
+    large = spec.get("scale") == "large"
+    stats = {}
+    oracle = svh_oracle(edges, max_order, large=large, stats=stats)
     if register:
         rec.case(f"svh {_desc(spec)} max_order={max_order} mp={mp}", nontrivial=bool(oracle))
+        if stats.get("big"):
+            rec.count("svh: runs with a tested hyperedge whose integer product of the K_i is >= 2**63"
+                      + (" (mp=True)" if mp else ""))
+            rec.count("svh: tested hyperedges whose integer product of the K_i is >= 2**63", stats["big"])
     try:
         hg = build_s(spec)
         before = snapshot_s(hg)
@@ -518,8 +590,9 @@ def check_svh(rec, spec, max_order, mp=False, register=True):
     rec.check(rows_ok, fn, S_ROWS, inp, lambda: {str(n): _js(set(ps)) for n, ps in oracle.items()}, shown, replay=rp)
     if not rows_ok:
         return
+    rel = 1e-9 if large else 0.0
     bad_p = [(n, e, p, oracle[n][frozenset(e)]) for n in oracle for e, p, _ in tables[n]
-             if not abs(p - oracle[n][frozenset(e)]) <= 1e-12]
+             if not abs(p - oracle[n][frozenset(e)]) <= 1e-12 + rel * oracle[n][frozenset(e)]]
     rec.check(not bad_p, fn, S_P, inp, lambda: [[n, _js(e), x] for n, e, _, x in bad_p],
               lambda: [[n, _js(e), p] for n, e, p, _ in bad_p], replay=rp)
     any_val = False
@@ -608,6 +681,100 @@ def random_svh_spec(rng):
         w = rng.randint(1, 3) if not heavy or rng.random() < 0.4 else rng.randint(5, 20)
         es.append([list(ms), w])
     return dict(weighted=weighted, edges=es, labels=kind)
+
+
+# ---- large scale: the integer product of the K_i reaches 2**63
+def _labels(rng, m):
+    kind = rng.choice(["0..n-1", "ints", "str"])
+    return kind, (list(range(m)) if kind == "0..n-1" else sorted(rng.sample(range(-5, 400), m)) if kind == "ints"
+                  else [f"v{i:02d}" for i in rng.sample(range(100), m)])
+
+
+def _products(es):
+    """[prod K_i] per hyperedge of a list [[nodes, weight]] all of one size."""
+    K = {}
+    for e, w in es:
+        for v in e:
+            K[v] = K.get(v, 0) + w
+    return [math.prod(K[v] for v in e) for e, _ in es]
+
+
+def _side(rng, labels, sizes, count, wmax):
+    """A few light hyperedges of the given sizes."""
+    seen, out = set(), []
+    for _ in range(count):
+        s = min(len(labels), rng.choice(sizes))
+        ms = tuple(sorted(rng.sample(labels, s), key=repr))
+        if ms not in seen:
+            seen.add(ms)
+            out.append([list(ms), rng.randint(1, wmax)])
+    return out
+
+
+def cyclic_spec(n, m, weights, side):
+    """All m windows of n consecutive nodes on a ring of m nodes, window i weighing weights[i % len(weights)]."""
+    es = [[sorted((i + j) % m for j in range(n)), weights[i % len(weights)]] for i in range(m)]
+    return dict(weighted=True, scale="large", design=f"cyclic {n}/{m}", edges=es + side)
+
+
+def dense_spec(rng):
+    n = rng.choice([8, 9, 10, 11, 12])
+    m = n + rng.randint(1, n)
+    kind, labels = _labels(rng, m)
+    count = min(rng.randint(5, 14), math.comb(m, n))
+    seen = set()
+    while len(seen) < count:
+        seen.add(tuple(sorted(rng.sample(labels, n), key=repr)))
+    es = [[list(e), rng.randint(1, 6)] for e in sorted(seen, key=repr)]
+    bits = rng.choice([63, 63, 64, 66])
+    which = rng.choice(["some", "every"])
+    agg = max if which == "some" else min
+    while agg(_products(es)) < 2 ** bits:
+        es[rng.randrange(len(es))][1] += rng.randint(1, 4)
+    side = []
+    if rng.random() < 0.6:
+        side += _side(rng, labels, [2, 2, 3], rng.randint(2, 5), 12)
+    if rng.random() < 0.25:
+        side += _side(rng, labels, [4, 5, 6, 7], rng.randint(2, 4), 9)
+    r = rng.random()
+    mo = n - 1 if r < 0.05 else rng.choice([n, max(n, 12), 20])
+    spec = dict(weighted=True, scale="large", design=f"dense size {n}, prod K_i of {which} hyperedge >= 2**{bits}",
+                labels=kind, edges=es + side)
+    return spec, mo
+
+
+def heavy_spec(rng, n=None):
+    n = n or rng.choice([4, 5, 5, 6, 6, 7, 7, 7])
+    base = math.ceil(2 ** (63 / n))
+    W = 60000 if n == 4 and rng.random() < 0.3 else base + rng.randint(0, base // 10)
+    out_n = rng.randint(1, 3)
+    kind, labels = _labels(rng, n + out_n)
+    rng.shuffle(labels)
+    core, outside = labels[:n], labels[n:]
+    es, seen = [[sorted(core, key=repr), W]], {tuple(sorted(core, key=repr))}
+    for _ in range(rng.randint(2, 5)):
+        drop = rng.randint(1, min(2, len(outside)))
+        ms = tuple(sorted(rng.sample(core, n - drop) + rng.sample(outside, drop), key=repr))
+        if ms not in seen:
+            seen.add(ms)
+            es.append([list(ms), rng.randint(1, 30)])
+    side = _side(rng, labels, [2, 2, 3], rng.randint(0, 4), 12)
+    spec = dict(weighted=True, scale="large", design=f"heavy size {n}, one hyperedge of weight {W} >= 2**(63/{n})",
+                labels=kind, edges=es + side)
+    return spec, rng.choice([n, 10, 10])
+
+
+def fixed_large():
+    side = [[[0, 1], 3], [[1, 2], 1], [[2, 3], 7], [[0, 4], 2], [[5, 6], 4], [[0, 1, 2], 1], [[1, 2, 3], 5],
+            [[2, 3, 4], 3], [[0, 3, 4], 9]]
+    return [
+        (cyclic_spec(10, 16, [8, 11, 14, 10, 13, 9, 12], side), 10),
+        (cyclic_spec(8, 12, [30, 37, 33, 41, 35], side), 10),
+        (cyclic_spec(12, 18, [3, 6, 4, 5, 7], side), 12),
+        (dict(weighted=True, scale="large", design="heavy size 4, weight 60000",
+              edges=[[[0, 1, 2, 3], 60000], [[0, 1, 2, 4], 7], [[1, 2, 3, 5], 9], [[0, 2, 3, 6], 11], [[0, 1, 4, 6], 5],
+                     [[0, 1], 2], [[4, 5], 3], [[1, 2, 6], 4]]), 10),
+    ]
 
 
 # =============================================================================================== driver
@@ -741,6 +908,27 @@ def run(ctx):
     ctx.count("svh: random runs", cnt)
     ctx.rule("random svh cases: 3..10 nodes, 1..8 distinct hyperedges of size 1..5, weights 1..3 or (60% of the cases) "
              "mostly 5..20 so that some hyperedges get validated, 15% unweighted, int / string labels")
+    # ---- svh large scale: integer product of the K_i >= 2**63 (heavy cases first: they cost seconds each)
+    selfcheck_tail(ctx.seed)
+    fixed = fixed_large()
+    heavy = [heavy_spec(rng, n) for n in (4, 5, 6, 7)] if q else [heavy_spec(rng) for _ in range(40)]
+    dense = [dense_spec(rng) for _ in range(30 if q else 400)]
+    _run(ctx, total, "svh-runs", [fixed[-1]] + heavy + fixed[:-1] + dense, 1 if q else 2)
+    ctx.count("svh: large-scale runs (mp=False)", len(fixed) + len(heavy) + len(dense))
+    ctx.rule("large-scale svh cases: hyperedges of size 8..12 whose nodes occur in ~40..300 occurrences of that size "
+             "(cyclic designs; random 'dense' designs with weights grown until prod K_i of some / every hyperedge is "
+             ">= 2**63, 2**64 or 2**66), and 'heavy' cases of size 4..7 with one hyperedge of weight >= 2**(63/size) "
+             "next to light hyperedges sharing most of its nodes; light size-2/3 hyperedges beside them")
+    ctx.assume("large-scale svh cases: p-values compared at 1e-12 absolute + 1e-9 relative (rounding of prod K_i/N in "
+               "double precision is amplified by N <= ~60 000 in the binomial tail)")
+    big = Rec()
+    mp_runs = [fixed[0]] + (dense[:2] + heavy[1:2] if q else dense[:30] + heavy[:4])
+    for spec, mo in mp_runs:
+        check_svh(big, spec, mo, mp=True)
+    for desc, nt in big.cases:
+        ctx.case(desc, nontrivial=nt)
+    big.count("svh: mp=True runs", len(mp_runs))
+    total.merge(big)
     # ---- mp=True smoke run (parent process: a daemonic pool worker may not start a pool of its own)
     if not q:
         smoke = Rec()
